@@ -7,9 +7,10 @@ from .. import gen_sched, sched_prog as sp
 from . import c08
 
 PROP = "C09"
-THEOREMS = []
+THEOREMS = ["C09_serial", "C09_serial_pairwise", "C09_continue_after_error", "C09_key_order",
+            "C09_query_may_overlap"]
 AXIOMS_OK = []
-RUN_MODULE = "Exec.RuntimeMachine Exec.RuntimeFutures Run.C08run Run.C09run"
+RUN_MODULE = "Exec.RuntimeMachine Exec.RuntimeFutures Spec.SchedSpec Run.C08run Run.C09run"
 AGREE = "agree_C09"
 CASE_TYPE = "case_C09"
 SHARD = 24
@@ -60,7 +61,9 @@ def _with_error_at(prog, i):
 
 
 def generate(rng, tier):
+    global SHARD
     quick = tier == "quick"
+    SHARD = 24 if quick else 10
     limit, samples = (720, 30) if quick else (5040, 200)
     cases = []
     n_mut, n_q = (40, 6) if quick else (320, 40)
